@@ -502,9 +502,15 @@ func vfSame(a, b interface{}) bool {
 		return ok && x == y
 	case float32:
 		y, ok := b.(float32)
+		if ok && math.Float32bits(x) == math.Float32bits(y) {
+			return true // identical bit patterns (identical terms need no solver query)
+		}
 		return ok && (x == y || (x != x && y != y))
 	case float64:
 		y, ok := b.(float64)
+		if ok && math.Float64bits(x) == math.Float64bits(y) {
+			return true
+		}
 		return ok && (x == y || (x != x && y != y))
 	}
 	return false
